@@ -601,22 +601,82 @@ out:
 
 /* ------------------------------------------------------------------ C19 */
 static double win_sq(int i,int n){ double s=sin(((double)i+0.5)/(2.0*n)*M_PI); double w=sin(0.5*M_PI*s*s); return w*w; }
+static int hist_lap_dirty;   /* the last replayed history ended within a few thousand samples of a lapped seek with no plain seek since: what the handle
+                                delivers next (and its hidden tail near a link end) may still be the earlier cross-fade, not the stream's own audio */
 static int replay_history(OggVorbis_File *vf,uint64_t hseed,int hs,const refdec_t *ref,size_t nbytes){
-  rng_t r; rng_seed(&r,hseed,0x19,0);
+  rng_t r; rng_seed(&r,hseed,0x19,0); long since=1<<30; hist_lap_dirty=0;
   if(hs) if(ov_halfrate(vf,1)) return -1;
   int n=(int)rng_below(&r,5);
   for(int i=0;i<n;i++){
     int c=(int)rng_below(&r,6); float **pcm; int bs;
     if(vh_trace) fprintf(stderr,"  hist op %d (tell %lld)\n",c,(long long)ov_pcm_tell(vf));
-    if(c==0){ ogg_int64_t p=ref->total?rng_range(&r,0,(long)ref->total):0; if(rng_chance(&r,0.7)){ if(ov_pcm_seek(vf,p)) return -2; } else { int q=ov_pcm_seek_lap(vf,p); if(q && q!=OV_EOF) return -8; } }
-    else if(c==1){ ogg_int64_t p=rng_range(&r,0,(long)nbytes); if(ov_raw_seek(vf,p)) return -3; }
-    else if(c==2){ int l=(int)rng_below(&r,ref->nlinks); ogg_int64_t p=ref->l[l].start+ref->l[l].len-(rng_chance(&r,0.4)?rng_range(&r,0,160):rng_range(&r,0,700)); if(p<0)p=0; if(ov_pcm_seek(vf,p)) return -4; }
-    else if(c==3){ ogg_int64_t p=ref->total-rng_range(&r,0,400); if(p<0)p=0; if(rng_chance(&r,0.5)){ if(ov_pcm_seek(vf,p)) return -5; } else { int q=ov_pcm_seek_lap(vf,p); if(q && q!=OV_EOF) return -7; } }
-    else { int k=(int)rng_range(&r,1,4); for(int j=0;j<k;j++) if(ov_read_float(vf,&pcm,(int)rng_range(&r,1,1500),&bs)<0) return -6; }
+    if(c==0){ ogg_int64_t p=ref->total?rng_range(&r,0,(long)ref->total):0; if(rng_chance(&r,0.7)){ if(ov_pcm_seek(vf,p)) return -2; since=1<<30; } else { int q=ov_pcm_seek_lap(vf,p); if(q && q!=OV_EOF) return -8; since=0; } }
+    else if(c==1){ ogg_int64_t p=rng_range(&r,0,(long)nbytes); if(ov_raw_seek(vf,p)) return -3; since=1<<30; }
+    else if(c==2){ int l=(int)rng_below(&r,ref->nlinks); ogg_int64_t p=ref->l[l].start+ref->l[l].len-(rng_chance(&r,0.4)?rng_range(&r,0,160):rng_range(&r,0,700)); if(p<0)p=0; if(ov_pcm_seek(vf,p)) return -4; since=1<<30; }
+    else if(c==3){ ogg_int64_t p=ref->total-rng_range(&r,0,400); if(p<0)p=0; if(rng_chance(&r,0.5)){ if(ov_pcm_seek(vf,p)) return -5; since=1<<30; } else { int q=ov_pcm_seek_lap(vf,p); if(q && q!=OV_EOF) return -7; since=0; } }
+    else { int k=(int)rng_range(&r,1,4); for(int j=0;j<k;j++){ long g=ov_read_float(vf,&pcm,(int)rng_range(&r,1,1500),&bs); if(g<0) return -6; if(since<(1<<29)) since+=g; } }
   }
-  if(rng_chance(&r,0.1)){ float **pcm; int bs; int g=0; while(ov_read_float(vf,&pcm,4096,&bs)>0 && g++<100000); }
+  if(rng_chance(&r,0.1)){ float **pcm; int bs; int g=0; long q; while((q=ov_read_float(vf,&pcm,4096,&bs))>0 && g++<100000) if(since<(1<<29)) since+=q; }
+  hist_lap_dirty= since<8192;
   return 0;
 }
+/* Independent derivation of "the audio that would have been read next" near the end of a link (full rate only): the link's
+   packets are decoded through the packet interface with the end-of-stream flag and every granule position withheld, so nothing
+   is trimmed; the last block's output is then consumed only up to the link-relative position rel, and one vorbis_synthesis_lapout
+   in that state (unreturned audio still pending - not the state vorbisfile is in after reading to the end of a trimmed link)
+   hands out what follows rel: the samples the final granule position trims away and then the last block's un-overlapped half.
+   Self-check: the untrimmed decode must agree with the reference decode on the last block's delivered part, else nothing is
+   judged.  Returns the number of samples written to out[c][0..want), 0 when not applicable. */
+static int untrimmed_continuation(const unsigned char *d,size_t nbytes,const reflink_t *L,long rel,int want,float **out){
+  ogg_sync_state oy; ogg_stream_state os; ogg_page og; ogg_packet op; vorbis_info vi; vorbis_comment vc; vorbis_dsp_state vd; vorbis_block vb;
+  int have_os=0,nhead=0,dsp=0,got=0; long count=0,last_start=0,last_n=0; size_t pos=0; int bad=0;
+  ogg_sync_init(&oy); vorbis_info_init(&vi); vorbis_comment_init(&vc);
+  /* all audio packets of the link first (the last one must be known before it is decoded) */
+  pktlist_t pk; pktlist_init(&pk);
+  while(!bad){
+    int r=ogg_sync_pageout(&oy,&og);
+    if(r==0){ if(pos>=nbytes) break; size_t k=nbytes-pos>65536?65536:nbytes-pos; char *b=ogg_sync_buffer(&oy,(long)k); memcpy(b,d+pos,k); ogg_sync_wrote(&oy,(long)k); pos+=k; continue; }
+    if(r<0) continue;
+    if(ogg_page_serialno(&og)!=(int)L->serial) { if(have_os && nhead>=3) break; continue; }
+    if(!have_os){ ogg_stream_init(&os,(int)L->serial); have_os=1; }
+    ogg_stream_pagein(&os,&og);
+    while(ogg_stream_packetout(&os,&op)>0){
+      if(nhead<3){ if(vorbis_synthesis_headerin(&vi,&vc,&op)){ bad=1; break; } nhead++; }
+      else pktlist_push(&pk,&op);
+    }
+  }
+  if(!bad && nhead==3 && pk.n>=2 && vi.channels==L->ch && vorbis_synthesis_init(&vd,&vi)==0){
+    dsp=1; vorbis_block_init(&vd,&vb);
+    for(int i=0;i<pk.n && !bad;i++){
+      ogg_packet q; pkt_to_ogg(&pk.v[i],&q); q.e_o_s=0; q.granulepos=-1; q.b_o_s=0;
+      if(vorbis_synthesis(&vb,&q)||vorbis_synthesis_blockin(&vd,&vb)){ bad=1; break; }
+      float **pcm; int s=vorbis_synthesis_pcmout(&vd,&pcm);
+      if(i<pk.n-1){ count+=s; vorbis_synthesis_read(&vd,s); continue; }
+      last_start=count; last_n=s;
+      if(rel<0||rel>last_start+last_n||rel>L->len||last_start-rel>=want){ bad=2; break; }
+      long pre= rel<last_start ? last_start-rel : 0;     /* audio before the last block comes from the reference decode */
+      /* self-check against the reference decode on [last_start, min(len,U)) */
+      long lim=L->len-last_start; if(lim>last_n) lim=last_n;
+      for(int c=0;c<L->ch && !bad;c++) for(long j=0;j<lim;j++) if(memcmp(&pcm[c][j],&L->pcm[c][last_start+j],4)){ bad=3; break; }
+      if(bad) break;
+      if(vh_trace) fprintf(stderr,"untrimmed: npk %d last_start %ld last_n %ld rel %ld len %lld pre %ld\n",pk.n,last_start,last_n,rel,(long long)L->len,pre);
+      for(int c=0;c<L->ch;c++) if(pre>0) memcpy(out[c],L->pcm[c]+rel,sizeof(float)*pre);
+      vorbis_synthesis_read(&vd,(int)(rel+pre-last_start));
+      float keep=(rel+pre-last_start<last_n)?pcm[0][rel+pre-last_start]:0; int cw=vd.centerW, pr=vd.pcm_returned, pc=vd.pcm_current;
+      float **lp; int ls=vorbis_synthesis_lapout(&vd,&lp);
+      if(vh_trace) fprintf(stderr,"  lapout: lW %ld W %ld centerW %d ret %d cur %d -> ret %d cur %d ls %d keep %.6g lp0 %.6g\n",vd.lW,vd.W,cw,pr,pc,vd.pcm_returned,vd.pcm_current,ls,keep,lp[0][0]);
+      if(ls>want-pre) ls=(int)(want-pre);
+      for(int c=0;c<L->ch;c++) if(ls>0) memcpy(out[c]+pre,lp[c],sizeof(float)*ls);
+      got=(int)pre+(ls>0?ls:0);
+    }
+  }
+  if(dsp){ vorbis_block_clear(&vb); vorbis_dsp_clear(&vd); }
+  pktlist_free(&pk);
+  if(have_os) ogg_stream_clear(&os);
+  vorbis_comment_clear(&vc); vorbis_info_clear(&vi); ogg_sync_clear(&oy);
+  return bad?0:got;
+}
+
 static void case_c19(const drvargs_t *a,long id){
   rng_t r; rng_seed(&r,a->seed,19,(uint64_t)id);
   chaindesc_t cd; buf_t phys; buf_init(&phys); char desc[700];
@@ -688,7 +748,7 @@ static void case_c19(const drvargs_t *a,long id){
     long pend=vorbis_synthesis_pcmout(&A.vf.vd,NULL);
     /* old_next: what C delivers next without leaving its link; at end of stream fall back to lapout / silence */
     float *oldn[256]; int have_old=old_unambiguous; for(int c=0;c<ch_old&&c<256;c++) oldn[c]=calloc(n_old>0?n_old:1,sizeof(float));
-    int old_tail=0;
+    int old_tail=0, c_lap=0;   /* c_lap: samples the twin's decoder still held behind the link's end (0: a decoder with nothing decoded, e.g. right after a seek to the very end - the continuation is then silence) */
     if(old_unambiguous){
       long cnt=0; int link0=c_link;
       /* samples left in the old link at the old position; never ask C for more, so that its decoder still belongs to that link */
@@ -710,9 +770,23 @@ static void case_c19(const drvargs_t *a,long id){
           float **lp; int ls=vorbis_synthesis_lapout(&C.vf.vd,&lp);
           if(ls>n_old-cnt) ls=(int)(n_old-cnt);
           for(int c=0;c<ch_old&&c<256;c++) if(ls>0) memcpy(oldn[c]+cnt,lp[c],sizeof(float)*ls);
-          old_tail= cnt>0?2:1;
+          old_tail= cnt>0?2:1; c_lap=ls;
         } else have_old=0;
       }
+    }
+    /* near the end of the old link the continuation is also derived without vorbisfile and without the state lapout is in there */
+    if(have_old && old_unambiguous && old_tail && !hs && ch_old<=256 && c_lap<=0) res_count("link_end_continuation_silent_no_block_decoded",1);
+    else if(have_old && old_unambiguous && old_tail && !hs && ch_old<=256 && hist_lap_dirty) res_count("link_end_continuation_not_judged_after_recent_lapped_seek",1);
+    else if(have_old && old_unambiguous && old_tail && !hs && ch_old<=256){
+      float *cont[256]; for(int c=0;c<ch_old;c++) cont[c]=calloc(n_old>0?n_old:1,sizeof(float));
+      int g=untrimmed_continuation(phys.p,phys.n,&F.l[c_link],(long)(old-F.l[c_link].start),n_old,cont);
+      if(g>0){
+        int same=1; for(int c=0;c<ch_old&&same;c++) if(memcmp(cont[c],oldn[c],sizeof(float)*n_old)) same=0;
+        if(vh_trace) fprintf(stderr,"cont: old %lld link %d start %lld len %lld n_old %d cnt-tail %d g %d same %d  cont0 %.6g oldn0 %.6g cont[last] %.6g oldn[last] %.6g\n",(long long)old,c_link,(long long)F.l[c_link].start,(long long)F.l[c_link].len,n_old,old_tail,g,same,cont[0][0],oldn[0][0],cont[0][n_old-1],oldn[0][n_old-1]);
+        res_count(same?"link_end_continuation_agrees_with_untrimmed_decode":"link_end_continuation_differs_from_untrimmed_decode",1);
+        for(int c=0;c<ch_old;c++) memcpy(oldn[c],cont[c],sizeof(float)*n_old);
+      } else res_count("link_end_continuation_not_derivable",1);
+      for(int c=0;c<ch_old;c++) free(cont[c]);
     }
     /* read from both twins in lockstep and compare */
     long idx=0; int fail=0; long want=n+ (long)rng_range(&r,200,3000);
